@@ -9,7 +9,7 @@ RULE = ("case = allocation/drop history over a root table (bursty phases with di
         "hash tables, thread objects) + collection points (natural, and forced at tape-chosen allocations) + initial heap size. "
         "After EVERY collection the simulator walks every segment (exact tiling, sorted disjoint free list, clear mark bits, every "
         "reference slot -> start of a live object of this context), checks conservation (bytes surviving the sweep == bytes the mark phase "
-        "reached; live+free+sentinels == total) and the growth bound. Non-trivial: >= 3 collections checked and >= 2000 allocations; "
+        "reached; live+free+sentinels == total) and the growth bound (histories include ramps: a buffer re-allocated slightly larger each round).  Non-trivial: >= 3 collections checked and >= 2000 allocations; "
         "distinct = distinct event-log hashes.")
 ASSUMPTIONS = [
     "the type layout table is trusted as the description of which words are references and of object sizes",
@@ -54,6 +54,11 @@ PRELUDE = r"""
 (define (churn kind size count stride start)
   (do ((i 0 (+ i 1)) (s start (modulo (+ s stride) NR))) ((= i count))
     (vector-set! R s (mk kind (+ size (modulo i 3))))))
+(define (ramp kind base step n small)
+  ; a buffer that is re-allocated a little larger every round (each request exceeds every dead object), small garbage in between
+  (do ((i 0 (+ i 1))) ((= i n))
+    (vector-set! R 0 (mk kind (+ base (* i step))))
+    (churn 14 1 small 1 1)))
 (define (drop-burst from step) (do ((i from (+ i step))) ((>= i NR)) (vector-set! R i #f)))
 (define (link i j) (vector-set! R i (cons (vector-ref R i) (vector-ref R j))))
 (define (count-live) (let loop ((i 0) (c 0)) (if (= i NR) c (loop (+ i 1) (if (vector-ref R i) (+ c 1) c)))))
@@ -79,6 +84,17 @@ def gen_history(rng, tier, scale=1.0):
     per_obj = {0: None, 6: 12, 8: 4, 9: 60, 10: 130, 12: 3}
     for ph in range(phases):
         mix = rng.sample(sorted(KINDS.keys()), rng.range(1, 4))
+        if rng.chance(1, 4):
+            kind = rng.choice([1, 2, 3, 1])
+            unit = 8 if kind == 1 else 1
+            base = rng.choice([300, 2000, 16000, 60000]) * (8 // unit)
+            step = rng.choice([1, 1, 3, 64])
+            n = rng.choice([200, 1000, 4000])
+            n = max(10, min(n, (byte_budget // phases) // (base * unit + 64)))
+            small = rng.choice([0, 5, 50, 300])
+            n = max(10, min(n, (obj_budget // phases) // (small + 2)))
+            est += n * (small + 2)
+            ops.append("(ramp %d %d %d %d %d)" % (kind, base, step, n, small))
         for _ in range(rng.range(1, 5)):
             kind = rng.choice(mix)
             size = rng.choice(KINDS[kind])
@@ -105,7 +121,29 @@ def gen_history(rng, tier, scale=1.0):
     return ops, est
 
 
+def gen_ramp_only(rng, tier, index, seed):
+    """Unbounded growth is a statement about allocation volume: one long ramp (a buffer re-allocated slightly larger every round
+    -- every request exceeds every dead object -- with small garbage in between) pushes 0.4-0.8 GB (thorough: up to 3 GB)
+    through a heap whose live data stays at a few hundred KB, under the natural collection schedule."""
+    kind = rng.choice([1, 2, 3])
+    unit = 8 if kind == 1 else 1
+    base_b = rng.choice([4000, 16000, 64000, 200000])
+    step = rng.choice([1, 1, 2, 5]) * (8 // unit)
+    small = rng.choice([20, 100, 400, 2000])
+    volume = rng.choice([400, 600, 800]) * 1000000 if tier == "quick" else rng.choice([800, 1500, 3000]) * 1000000
+    # volume ~ n * (base_b + n*step*unit/2 + small*32)
+    n = 1
+    while n * (base_b + n * step * unit // 2 + small * 32) < volume and n < 2000000:
+        n = int(n * 1.3) + 1
+    ops = ["(set-roots! 8)", "(ramp %d %d %d %d %d)" % (kind, base_b // unit, step, n, small), "(drop-burst 0 1)", "(sim-gc)", "(count-live)"]
+    steps = [{"op": "eval", "src": PRELUDE}] + [{"op": "eval", "src": o} for o in ops]
+    return {"prop": ID, "index": index, "seed": seed, "config": "sim", "meta": {"family": "ramp-only"},
+            "steps": steps, "gc": {"mode": "none", "heapcheck_every": 1, "growth_c": GROWTH_C}, "knobs": {}, "sched": {"default_q": 500, "tick_budget": 4000000000}}
+
+
 def generate(rng, tier, index, seed):
+    if rng.chance(1, 10):
+        return gen_ramp_only(rng.fork("ramp"), tier, index, seed)
     variant = "asan" if rng.chance(1, 8) else "sim"
     # the asan variant's 32-byte pad makes first-fit allocation slow (unusable 32-byte chunks pile up): smaller histories there
     ops, est = gen_history(rng.fork("hist"), tier, 0.1 if variant == "asan" else 1.0)
